@@ -392,7 +392,7 @@ def whole_function_table(ck):
     b_opts = [(), (('b', None),), (('b', 0),), (('b', 2),)]
     c_opts = [(), (('c', None),), (('c', 2),)]
     n_opts = [(), ((None, -2),), ((None, 0),), ((None, 1),), ((None, 4),), ((None, 1), (None, 4))]
-    recs = [{}, {'a': 1}, {'a': 3}, {'b': 2}, {'a': 1, 'b': 2}, {'b': 2, 'a': 3}, {'a': 3, 'b': 2}]
+    recs = [{}, {'a': 1}, {'a': 3}, {'b': 2}, {'a': 1, 'b': 2}, {'b': 2, 'a': 3}, {'a': 3, 'b': 2}] if ck.tier == 'thorough' else [{}, {'a': 3}, {'a': 1, 'b': 2}, {'b': 2, 'a': 3}]
     bad = []
     n = 0
     try:
